@@ -42,7 +42,11 @@ RULE = ('every spec of: [opt] rectangular nx,ny in 1..3 x 3 spacing patterns x 4
         'block orders; [derived] 3x2 and g7 refined by each single column and by all, reduced to each half, rotated '
         '30 degrees, translated; [layers] stored layer centres that are not midpoints (a quarter up, exactly 0.0 in the '
         'first layer, 0.0 for the atmosphere layer) x surfaces of exactly 0.00 (none, two columns, all) on a geometry '
-        'with its top at +15 x 2 conventions x 3 atmosphere types x units; g7 with the surface of each single column, each pair of consecutive columns and all '
+        'with its top at +15 x 2 conventions x 3 atmosphere types x units; [route] unit type reached through the '
+        'other unit type, with and without a write in between; [reader] one mulgrid object that has read a feet/dmplex/'
+        'angle or a metres/layer_column file re-used through read() x 3 block orders x units x 2 conventions x 3 '
+        'atmosphere types; [derived] also rename_column of each single column, subsets, all in reverse and in list '
+        'order (one by one and as lists), name swaps, rename_layer, delete+add of a column; g7 with the surface of each single column, each pair of consecutive columns and all '
         'columns reset.  Each spec: library write -> reference reader, library write -> library read -> '
         'compare + rewrite, reference writer (Fortran styles) -> library read.  A case is non-trivial when the '
         'geometry has at least one column and one layer; distinct = distinct spec.')
@@ -207,6 +211,49 @@ def specs_layers(tier):
     return out
 
 
+def specs_route(tier):
+    """The route by which the unit type was reached: through the other unit type, with and without a write of
+    the geometry in between (the direct route is every other group)."""
+    out = []
+    for unit in ('m', 'ft'):
+        for route in ('other', 'other+write'):
+            for conv, atm in ((0, 1), (1, 0), (2, 2)):
+                out.append(rect(3, 2, 'mixed', conv, atm, unit, route=route, wells=[2, 3], centres=[1],
+                                surface={'cols': [0, 4], 'kind': 'mixed'}))
+                out.append(rect(2, 1, 'increasing', conv, atm, unit, route=route))
+    return out
+
+
+PRIORS = {'feet,dmplex,angle': rect(2, 2, 'increasing', 2, 1, 'ft', 'dmplex', 45.5, 'alt', wells=[3],
+                                    surface={'cols': [0, 3], 'kind': 'mixed'}, centres=[2]),
+          'metres,layer_column': rect(3, 1, 'uniform', 0, 0, 'm', 'layer_column', 0.0, 'default')}
+
+
+def specs_reader(tier):
+    """History of the READER: one mulgrid object that has read another geometry file (other unit type, block
+    order, angle, atmosphere sizes, convention, wells, surface) reads the case's files with read(); the result
+    must be what a fresh object reads."""
+    out = []
+    for prior in sorted(PRIORS):
+        for order in ('none', 'layer_column', 'dmplex'):
+            for unit in ('m', 'ft'):
+                for conv in (0, 1):
+                    for atm in range(3):
+                        out.append(rect(2, 2, 'mixed', conv, atm, unit, order, reader=prior))
+        out.append(rect(3, 2, 'mixed', 0, 2, 'm', 'none', wells=[2], surface={'cols': [1], 'kind': 'mid'}, reader=prior))
+    return out
+
+
+def prior_file(kind):
+    path = os.path.join(core.scratch(), 'c03_prior_%d.dat' % sorted(PRIORS).index(kind))
+    if not os.path.exists(path):
+        with quiet():
+            g, _ = build(PRIORS[kind])
+        with open(path, 'w', newline='') as fh:
+            fh.write(fc.write_mulgraph(file_image(describe(g)), STYLES['E0-l-pad-long']))
+    return path
+
+
 def specs_shipped(tier):
     files = ['g1', 'g2', 'g3', 'g4', 'g5', 'g6', 'g7'] if tier == 'thorough' else ['g5', 'g7']
     out = []
@@ -219,8 +266,21 @@ def specs_shipped(tier):
     return out
 
 
+EDITS = ([['rename', [i]] for i in range(6)] +
+         [['rename', [0, 2]], ['rename', [4, 1]], ['rename', [5, 4, 3, 2, 1, 0]], ['rename', [0, 1, 2, 3, 4, 5]],
+          ['rename_list', [1, 3]], ['rename_list', [5, 4, 3, 2, 1, 0]], ['swapnames', 0, 5], ['swapnames', 2, 1],
+          ['rename_layer', [1]], ['rename_layer', [3, 2, 1]], ['rename_layer', [2, 3]],
+          ['deladd', 0], ['deladd', 2], ['deladd', 5]])
+
+
 def specs_derived(tier):
     out = []
+    # name and membership edits after which list order and dictionary order of the geometry may differ
+    for d in EDITS:
+        for unit in ('m', 'ft'):
+            out.append(rect(3, 2, 'mixed', 0, 1, unit, derive=d, wells=[2], surface={'cols': [1, 4], 'kind': 'mixed'}))
+        if d[0] in ('rename', 'rename_list', 'swapnames', 'deladd'):
+            out.append(rect(3, 2, 'mixed', 1, 0, 'm', derive=d))
     for unit in ('m', 'ft'):
         for i in range(6):
             out.append(rect(3, 2, 'mixed', 0, 1, unit, derive=['refine', i]))
@@ -231,6 +291,9 @@ def specs_derived(tier):
     if tier == 'thorough':
         for i in range(108):
             out.append({'base': 'g7', 'derive': ['refine', i]})
+        for d in (['rename', [0]], ['rename', [57]], ['rename', [107, 3, 50]], ['rename', list(range(107, -1, -1))],
+                  ['swapnames', 0, 107], ['deladd', 10]):
+            out.append({'base': 'g7', 'derive': d})
         for d in (['refine_all'], ['reduce', 0], ['reduce', 1], ['rotate', 30.0], ['translate', [12.34, -56.78, 9.87]]):
             for unit in ('m', 'ft'):
                 out.append({'base': 'g7', 'unit': unit, 'derive': d})
@@ -246,7 +309,8 @@ def specs_derived(tier):
 
 
 GROUPS = [('opt', specs_opt, 48), ('surf', specs_surf, 32), ('wells', specs_wells, 8), ('names', specs_names, 8),
-          ('limits', specs_limits, 2), ('layers', specs_layers, 4), ('shipped', specs_shipped, 64),
+          ('limits', specs_limits, 2), ('layers', specs_layers, 4), ('route', specs_route, 2),
+          ('reader', lambda tier: specs_reader(tier), 4), ('shipped', specs_shipped, 64),
           ('derived', specs_derived, 32), ('order', lambda tier: specs_order(tier), 4)]
 
 
@@ -320,7 +384,15 @@ def build(spec):
             lay.bottom *= scale
             lay.centre *= scale
             lay.top *= scale
-    if spec.get('unit') == 'ft':
+    route = spec.get('route')
+    if route:
+        # the unit type is reached through the other one ('FEET then metres', 'metres then FEET'), with or
+        # without a write in between; lengths in memory are metres throughout, only the file changes
+        g.unit_type = '' if spec.get('unit') == 'ft' else 'FEET'
+        if route == 'other+write':
+            g.write(os.path.join(core.scratch(), 'c03_route.dat'))
+        g.unit_type = 'FEET ' if spec.get('unit') == 'ft' else ''
+    elif spec.get('unit') == 'ft':
         g.unit_type = 'FEET '
     if spec.get('angle'):
         g.permeability_angle = spec['angle']
@@ -391,6 +463,37 @@ def build(spec):
             g.rotate(d[1], wells=len(d) > 2)
         elif d[0] == 'translate':
             g.translate(list(d[1]), wells=True)
+        elif d[0] == 'rename':
+            # rename_column of the columns with the given list positions, in the given order, to unused names
+            for i in d[1]:
+                new, _ = g.new_column_name()
+                g.rename_column(g.columnlist[i].name, new)
+        elif d[0] == 'rename_list':
+            olds = [g.columnlist[i].name for i in d[1]]
+            news = []
+            taken = dict(g.column)
+            for i in d[1]:
+                new, _ = mulgrids.new_dict_key(taken, 0, str.rjust, g.colname_length)
+                taken[new] = None
+                news.append(new)
+            g.rename_column(olds, news)
+        elif d[0] == 'swapnames':
+            a, b = g.columnlist[d[1]].name, g.columnlist[d[2]].name
+            tmp, _ = g.new_column_name()
+            g.rename_column(a, tmp)
+            g.rename_column(b, a)
+            g.rename_column(tmp, b)
+        elif d[0] == 'rename_layer':
+            for i in d[1]:
+                g.rename_layer(g.layerlist[i].name, '%2d' % (90 + i))
+        elif d[0] == 'deladd':
+            col = g.columnlist[d[1]]
+            cons = [con for con in g.connectionlist if col in con.column]
+            g.delete_column(col.name)
+            g.add_column(col)
+            for con in cons:
+                g.add_connection(con)
+            g.identify_neighbours()
     g.setup_block_name_index()
     g.setup_block_connection_name_index()
     return g, None
@@ -680,13 +783,17 @@ def file_image(D):
             'wells': [(n, [tuple(s(v) for v in p) for p in tr]) for n, tr in D['wells']]}
 
 
-def lib_read(path, want_unit, F, site_what):
+def lib_read(path, want_unit, F, site_what, reader=None):
     """mulgrid(path), and when the unit type does not come back, the same read with the unit type preset (the
     work-round a user has), so that everything behind the unit flag is still compared.
     -> (geometry for rewriting or None, description to compare or None, coords_comparable)"""
     import mulgrids
     with quiet():
-        g2 = mulgrids.mulgrid(path)
+        if reader:
+            g2 = mulgrids.mulgrid(prior_file(reader))
+            g2.read(path)
+        else:
+            g2 = mulgrids.mulgrid(path)
     D2 = describe(g2)
     if D2['header']['unit_type'] == want_unit:
         return g2, D2, True
@@ -737,6 +844,9 @@ def evaluate(spec, tier='thorough'):
     for p in (f1, f2, f3):
         if os.path.exists(p):
             os.remove(p)
+    hist = '[reader read a %s file before]' % spec['reader'] if spec.get('reader') else ''
+    if spec.get('route'):
+        ucls += ',unit-reached-via-%s' % ('metres' if scale != 1.0 else 'feet')
     # ---- 1. library writes, reference reads
     W = Findings('write', ucls)
     bytes1 = None
@@ -783,9 +893,9 @@ def evaluate(spec, tier='thorough'):
     viol += W.items
     # ---- 2. library reads its own file, compare, rewrite
     if bytes1 is not None:
-        B = Findings('write+read', ucls)
+        B = Findings('write+read' + hist, ucls)
         try:
-            g2, D2, comparable = lib_read(f1, D['header']['unit_type'], B, 'own file')
+            g2, D2, comparable = lib_read(f1, D['header']['unit_type'], B, 'own file', spec.get('reader'))
             stats['round_trips'] += 1
             if not flag_ok:
                 # the flag is not in the file: that the reader cannot find it is an echo of the write finding
@@ -803,7 +913,7 @@ def evaluate(spec, tier='thorough'):
                     # (when the re-read geometry already differs, a different second file is the same finding)
                     l1, l2 = bytes1.split('\n'), bytes2.split('\n')
                     k = next((i for i, (a_, b_) in enumerate(zip(l1, l2)) if a_ != b_), min(len(l1), len(l2)))
-                    B2 = Findings('rewrite', ucls)
+                    B2 = Findings('rewrite' + hist, ucls)
                     B2.add('bytes-differ', 'second write differs from the first at line %d: %r -> %r'
                            % (k + 1, l1[k] if k < len(l1) else None, l2[k] if k < len(l2) else None))
                     viol += B2.items
@@ -825,7 +935,7 @@ def evaluate(spec, tier='thorough'):
     img = file_image(D)
     base_clauses = None
     for sname in names:
-        Fs = Findings('read(ref-written)', ucls)
+        Fs = Findings('read(ref-written)' + hist, ucls)
         try:
             text = fc.write_mulgraph(img, STYLES[sname])
         except fc.RefFormatError as e:
@@ -834,7 +944,8 @@ def evaluate(spec, tier='thorough'):
             fh.write(text)
         stats['ref_written'] += 1
         try:
-            g3, D3, comparable = lib_read(f3, D['header']['unit_type'], Fs, 'reference-written file')
+            g3, D3, comparable = lib_read(f3, D['header']['unit_type'], Fs, 'reference-written file',
+                                          spec.get('reader'))
             cmp_mem(D, D3, Fs, coords=comparable)
         except core.CaseTimeout:
             raise
